@@ -407,3 +407,37 @@ Proof.
     apply IH. apply step_uniq. exact W. }
   apply G. constructor.
 Qed.
+
+(* ------------------------------------------------------------------ C13 *)
+Definition exporter (o : op) : bool :=
+  match o with
+  | OExportJson _ | OExportProvn _ | OToGraph _ | OEq _ _ | OEqRec _ _ | OGetRecords _ _ | OObserveAll => true
+  | _ => false
+  end.
+
+(* the pure exporters return the world they were given *)
+Theorem exporter_pure : forall w o, exporter o = true -> fst (step w o) = w.
+Proof.
+  intros w o E. destruct o; try discriminate E; cbn [step]; unfold with_cont;
+    repeat (match goal with
+            | |- context [match ?x with _ => _ end] => destruct x eqn:?
+            end; cbn [fst snd]); reflexivity.
+Qed.
+
+(* hence repeatable: the same export on the resulting world gives the same answer *)
+Theorem exporter_repeatable : forall w o, exporter o = true -> step (fst (step w o)) o = step w o.
+Proof. intros w o E. rewrite (exporter_pure w o E). reflexivity. Qed.
+
+(* the composite exporters (unified, flattened, graph round trip, document from
+   records) leave every existing document as it was *)
+Definition deriving (o : op) : bool :=
+  match o with
+  | OUnified _ | OFlattened _ | OGraphRoundTrip _ | ODocFromRecords _ | OLoadJson _ => true
+  | _ => false
+  end.
+
+Theorem deriving_frame : forall w o d, deriving o = true -> d < length (wdocs w) ->
+  nth_error (wdocs (fst (step w o))) d = nth_error (wdocs w) d.
+Proof.
+  intros w o d E L. apply step_frame; [exact L|]. destruct o; try discriminate E; cbn [target]; discriminate.
+Qed.
